@@ -28,6 +28,13 @@ FAMILIES = {
     'Assign': ('stmt', ['__FST_', 'if flag:\n    __FST_\nelse:\n    other()', 'with lock:\n    __FST_']),
     'unwrap_list': ('expr', ['__FST_e', '__FST_e', '(__FST_e)', 'wrap(__FST_e)']),   # [[...]] -> [...]: still matches while nested
     # a captured expression placed into non-body slots of a statement template (with-item with and without 'as', call argument)
+    # quantifier (multi-node) capture over the merged, source-ordered arguments of a Call: k1 single wildcards, a
+    # MQSTAR(t=...) run, k2 single wildcards; the run is placed into an argument slot of the template
+    'callq_0_0': ('expr', ['kall(x, __FST_t)', 'kall(__FST_t)', 'kall(__FST_t, zz=kz)']),
+    'callq_1_0': ('expr', ['kall(x, __FST_t)', 'kall(__FST_t)', 'kall(__FST_t, zz=kz)']),
+    'callq_0_1': ('expr', ['kall(x, __FST_t)', 'kall(__FST_t)', 'kall(__FST_t, zz=kz)']),
+    'callq_1_1': ('expr', ['kall(x, __FST_t)', 'kall(__FST_t)', 'kall(__FST_t, zz=kz)']),
+    'callq_2_1': ('expr', ['kall(x, __FST_t)', 'kall(__FST_t)', 'kall(__FST_t, zz=kz)']),
     'assign_value': ('stmt', ['with __FST_val as handle:\n    pass', 'with __FST_val as handle:\n    pass', 'use(__FST_val)', 'other = [__FST_val, 1]']),   # (a BARE 'with __FST_x:' slot splats sequences by documented design: not used)
 }
 
@@ -56,6 +63,9 @@ def build_pattern(fam):
         return m.MAssign
     if fam == 'unwrap_list':
         return m.MList(elts=[m.M(e=m.MList)])
+    if fam.startswith('callq_'):
+        k1, k2 = int(fam[6]), int(fam[8])
+        return m.MCall(_args=[...] * k1 + [m.MQSTAR(t=...)] + [...] * k2)
     if fam == 'assign_value':
         return m.MAssign(value=m.M(val=m.MNOT(m.MOR(m.MYield, m.MYieldFrom, m.MStarred, m.MNamedExpr))))  # values that need no special enclosure
     raise KeyError(fam)
@@ -67,6 +77,8 @@ def ref_matches(fam, n, plain=False):
         return False
     if fam == 'unwrap_list':
         return isinstance(n, ast.List) and len(n.elts) == 1 and isinstance(n.elts[0], ast.List)
+    if fam.startswith('callq_'):
+        return isinstance(n, ast.Call) and len(n.args) + len(n.keywords) >= int(fam[6]) + int(fam[8])
     if fam == 'assign_value':
         return isinstance(n, ast.Assign) and not isinstance(n.value, (ast.Yield, ast.YieldFrom, ast.Starred, ast.NamedExpr))
     if fam == 'Name_load':
@@ -203,6 +215,17 @@ class Ref:
                         pass
                     elif isinstance(v, list):
                         for i, x in enumerate(v):
+                            if isinstance(x, ast.Name) and x.id == '__FST_t' and self.fam.startswith('callq_'):
+                                # the captured run of arguments (source order) goes where the slot is
+                                k1, k2 = int(self.fam[6]), int(self.fam[8])
+                                al = sorted(node.args + node.keywords, key=lambda n: (n.lineno, n.col_offset))
+                                run = al[k1:len(al) - k2]
+                                for r in run:
+                                    r._placed = True
+                                    r._tpos = (x.lineno, x.col_offset)
+                                v[i:i + 1] = [r for r in run if not isinstance(r, ast.keyword)]
+                                parent.keywords[0:0] = [r for r in run if isinstance(r, ast.keyword)]
+                                break
                             if isinstance(x, ast.Name) and x.id.startswith('__FST_'):
                                 v[i] = slot_value(x.id, x)
             return t
@@ -370,6 +393,13 @@ class SubRun:
                 'form': rng.choice(['src', 'src', 'fst']),
                 'loop': rng.choice([False, False, 2, 3]) if fam == 'unwrap_list' or rng.random() < 0.25 else False,
             }
+            if fam.startswith('callq_'):
+                req['on'] = 'enter'  # the reference orders arguments by their original positions: parents before children
+                req['loop'] = False
+                fx = ['qa = qf(qb, qk=1, *qc, **qd)', 'qg(qk=1, *qb)', 'qh(qa, *qb, qk=1, *qc, **qd)', 'qi(qa, qb, qc, qd)', 'qj(qa, qk=qf(qb, *qc), *qd)',
+                      'qm(qa, qk=1,\n  *qb, **qc)']
+                rng.shuffle(fx)
+                program = program.rstrip('\n') + '\n' + '\n'.join(fx[:rng.choice([1, 2, 4])]) + '\n'
             if req['loop']:
                 req['skip_every'] = 0   # callbacks are also called for each loop iteration: keep the two features apart
                 req['nested'] = False   # which nodes of an already looped location may match again is not documented
